@@ -1009,6 +1009,10 @@ impl C09 {
         let npools = if rng.chance(1, 6) { 5 } else { 4 };
         let pool = pool_sets[rng.usize(npools)];
         let tag_pool = ["t1", "t2", "v.1"];
+        if rng.chance(1, 3) {
+            out.push("tag t1 - 1".into());
+            tags.push("t1".into());
+        }
         let n = 4 + rng.usize(8);
         let mut cloned = false;
         for _ in 0..n {
@@ -1035,24 +1039,27 @@ impl C09 {
                     let nv = live[i].1.last().unwrap() + 1;
                     live[i].1.push(nv);
                 }
-                8 => {
-                    let t = rng.pick(&tag_pool).to_string();
-                    let op = if tags.contains(&t) { "retag" } else { "tag" };
-                    let ver = if rng.chance(1, 10) { vers.last().unwrap() + 1 } else { *rng.pick(&vers) };
-                    out.push(format!("{op} {t} {b} {ver}"));
-                    if vers.contains(&ver) && !tags.contains(&t) {
-                        tags.push(t);
-                    }
-                }
-                9 => {
-                    let t = rng.pick(&tag_pool).to_string();
-                    match rng.usize(3) {
+                8 | 9 => {
+                    // tag ops: mostly create / move an existing tag (to any live branch and version), sometimes
+                    // delete / look up / read through it
+                    let t = if !tags.is_empty() && rng.chance(3, 5) { rng.pick(&tags).clone() } else { rng.pick(&tag_pool).to_string() };
+                    match rng.usize(8) {
                         0 => {
                             out.push(format!("untag {t}"));
                             tags.retain(|x| *x != t);
                         }
                         1 => out.push(format!("gettag {t}")),
-                        _ => out.push(format!("readtag {t}")),
+                        2 => out.push(format!("readtag {t}")),
+                        _ => {
+                            let op = if tags.contains(&t) != rng.chance(1, 12) { "retag" } else { "tag" };
+                            // prefer a branch other than main as the target
+                            let (b, vers) = if live.len() > 1 && rng.chance(2, 3) { live[1 + rng.usize(live.len() - 1)].clone() } else { (b.clone(), vers.clone()) };
+                            let ver = if rng.chance(1, 10) { vers.last().unwrap() + 1 } else { *rng.pick(&vers) };
+                            out.push(format!("{op} {t} {b} {ver}"));
+                            if op == "tag" && vers.contains(&ver) && !tags.contains(&t) {
+                                tags.push(t);
+                            }
+                        }
                     }
                 }
                 10..=12 => {
